@@ -1,19 +1,8 @@
-"""Human-written texts for MANIFEST.json (level claimed, trusted base) per property."""
-HOOK_COMMITS = ["89caa3c"]
+"""Shared texts for MANIFEST.json; per-property texts live in cfg/Cnn.py (TEXT)."""
+from checkcfg import TEXT  # noqa: F401
 
-_PENDING = "not claimed yet: model, theorems and correspondence engine for this property are still being built (see DESIGN.md §8 build order); will be claimed at category proof"
+# commits in /repo that add the guarded hooks (feature `verif`)
+HOOK_COMMITS = ["89caa3c", "ecf4dc9"]
+
+_PENDING = "not claimed yet: model, theorems and correspondence engine for this property are still being built (DESIGN.md §8 build order); will be claimed at category proof"
 NOT_APPLICABLE = {f"C{i:02d}": _PENDING for i in range(1, 21)}
-
-TEXT = {
-    "C20": {
-        "text": "Full: Lean theorems decode∘encode = id for every Request and Response (any number of rows/columns, empty and non-ASCII strings), "
-                "framing round-trip and cap, rejection of short/wrong-version/unknown-status input, and a bound (≤ bytes received) on every "
-                "capacity request of the decoder — for all inputs, no size bound. The model is tied to tcp/mod.rs by ~20 000 generated cases per run "
-                "(byte-exact encodings, decoder outcomes on arbitrary and mutated bytes under an address-space limit) and by constants extracted from the code.",
-        "design_ref": "DESIGN.md §5 C20",
-        "note": "Trusted: Lean kernel + propext/Quot.sound; the hand-written model of tcp/mod.rs (validated differentially, not verified); "
-                "from_utf8_lossy modelled by `lossy`; query_result_to_response (server binary) only assumed to produce rectangular rows; "
-                "zero-column Rows messages announcing > 10^4 rows are excluded from generation (valid but enormous).",
-        "technique": "Lean 4 round-trip and bound theorems + differential correspondence with the real encoder/decoder",
-    },
-}
